@@ -442,39 +442,47 @@ theorem trim_spec (s : List Nat) :
   unfold trim
   rw [cstrToBytes_eq']; rfl
 
-/-! ### types.TrimDBCS -/
+/-! ### types.TrimDBCS (after fix 279321c) -/
 
-/-- observation O7 (not judged): on an empty C string the code indexes `theBytes[-1]` and panics
-(its only caller passes a title that starts with `Fw:`). -/
-theorem trimDBCS_empty_faults (s : List Nat) (h : cstr s = []) : trimDBCS s = .error .panic := trimDBCS_empty' s h
-
-/-- on a non-empty C string: no fault; a last byte ≥ 0x80 is cut (and zeroed in the caller's array), anything
-else is left alone. -/
-theorem trimDBCS_spec (s L : List Nat) (b : Nat) (h : cstr s = L ++ [b]) :
-    trimDBCS s = .ok (if b ≥ 128 then (L, s.set L.length 0) else (L ++ [b], s)) := trimDBCS_spec' s L b h
-
-/- FINDING (reported, see checks/c18.py): the full-strength statement
-     `trimDBCS_no_split : (∀ u ∈ us, u.ok) → us ≠ [] → ∃ vs, (∀ v ∈ vs, v.ok) ∧ trimDBCS (unitsBytes us ++ [0]) = .ok (unitsBytes vs, _)`
-   ("the result is a whole number of characters") is FALSE: `TrimDBCS` cuts *any* last byte ≥ 0x80, also the
-   trail byte of a complete character.  Negation with the witness: -/
-theorem trimDBCS_splits_witness :
-    (∀ u ∈ [DUnit.d 164 164], u.ok) ∧
-    trimDBCS (unitsBytes [DUnit.d 164 164] ++ [0]) = .ok ([164], [164, 0, 0]) ∧
-    dbcsFold [164] = DBCS_LEADING := by
-  refine ⟨by simp [DUnit.ok], by rfl, by decide +kernel⟩
-
-/-- what does hold (`…_partial`): when the C string ends in a *dangling* lead byte — the case the function was
-written for (a title cut by `copy` into the 65-byte field in the middle of a character) — or in an ASCII byte,
-the result is a whole number of characters. -/
-theorem trimDBCS_no_split_partial (s : List Nat) (us : List DUnit) (hok : ∀ u ∈ us, u.ok) :
-    (∀ l, 128 ≤ l → cstr s = unitsBytes us ++ [l] → ∃ buf, trimDBCS s = .ok (unitsBytes us, buf)) ∧
-    (∀ c, c < 128 → cstr s = unitsBytes us ++ [c] → ∃ buf, trimDBCS s = .ok (unitsBytes (us ++ [.a c]), buf)) := by
+/-- `TrimDBCS` never splits a double-byte character, at full strength: a C string made of whole characters is
+returned unchanged (array untouched); one that ends in a dangling lead byte loses exactly that byte (zeroed in
+the caller's array). No fault in either case. -/
+theorem trimDBCS_no_split (s : List Nat) (us : List DUnit) (hok : ∀ u ∈ us, u.ok) :
+    (cstr s = unitsBytes us → trimDBCS s = .ok (unitsBytes us, s)) ∧
+    (∀ l, 128 ≤ l → cstr s = unitsBytes us ++ [l] →
+      trimDBCS s = .ok (unitsBytes us, s.set (unitsBytes us).length 0)) := by
+  obtain ⟨h1, h2⟩ := dbcsFold_units us hok
   constructor
+  · intro h
+    have := trimDBCS_keep s (by rw [h]; exact h1)
+    rw [h] at this; exact this
   · intro l hl h
-    rw [trimDBCS_spec' s _ l h, if_pos hl]; exact ⟨_, rfl⟩
-  · intro c hc h
-    rw [trimDBCS_spec' s _ c h, if_neg (by omega)]
-    exact ⟨s, by simp [unitsBytes, DUnit.bytes]⟩
+    exact trimDBCS_cut s _ l h (by rw [h]; exact h2 l hl)
+
+/-- totality, the empty string included (O7 is gone): the result is always a whole number of characters and a
+prefix of the C string. -/
+theorem trimDBCS_total (s : List Nat) :
+    ∃ us buf, (∀ u ∈ us, u.ok) ∧ trimDBCS s = .ok (unitsBytes us, buf) ∧ unitsBytes us <+: cstr s := by
+  obtain ⟨us, hok, h | ⟨l, hl, h⟩⟩ := units_complete (cstr s)
+  · exact ⟨us, s, hok, (trimDBCS_no_split s us hok).1 h, by rw [h]; exact List.prefix_refl _⟩
+  · exact ⟨us, _, hok, (trimDBCS_no_split s us hok).2 l hl h, by rw [h]; exact List.prefix_append _ _⟩
+
+/-- `TrimDBCS` and `DBCSSafeTrim` agree on the C string. -/
+theorem trimDBCS_eq_safeTrim (s : List Nat) :
+    ∃ r buf, trimDBCS s = .ok (r, buf) ∧ dbcsSafeTrim (cstr s) = .ok r := by
+  obtain ⟨us, hok, h | ⟨l, hl, h⟩⟩ := units_complete (cstr s)
+  · exact ⟨_, _, (trimDBCS_no_split s us hok).1 h, by rw [h]; exact dbcsSafeTrim_whole' us hok⟩
+  · exact ⟨_, _, (trimDBCS_no_split s us hok).2 l hl h, by rw [h]; exact dbcsSafeTrim_dangling' us hok l hl⟩
+
+/-- before fix 279321c (finding `split:trimdbcs`, now recorded as fixed): the old body cut the trail byte of a
+complete character and faulted on the empty string; the current model does neither on the same inputs. -/
+theorem trimDBCS_before_fix_witness :
+    trimDBCSOld [164, 164, 0] = .ok ([164], [164, 0, 0]) ∧ dbcsFold [164] = DBCS_LEADING ∧
+    trimDBCSOld [0] = .error .panic ∧
+    trimDBCS [164, 164, 0] = .ok ([164, 164], [164, 164, 0]) ∧ trimDBCS [0] = .ok ([], [0]) := by
+  refine ⟨by rfl, by decide +kernel, by rfl, by rfl, by rfl⟩
+
+example : trimDBCS [97, 164, 164, 164, 0, 7] = .ok ([97, 164, 164], [97, 164, 164, 0, 0, 7]) := by rfl
 
 /-! ### cmsys.StripNoneBig5 (works in place; the model returns the slice and the array afterwards) -/
 
@@ -503,13 +511,27 @@ example : stripNoneBig5 [97, 1, 164, 64, 164, 32, 200, 0, 98] = .ok ([97, 164, 6
 example : stripNoneBig5 [164] = .ok ([], [0]) := by rfl
 example : Big5Safe [97, 164, 64, 32] := .ascii 97 _ (by omega) (by omega) (.dbcs 164 64 _ (by omega) (by omega) (by decide) (.ascii 32 _ (by omega) (by omega) .nil))
 
-/-! ### cmbbs.SubjectEx
+/-! ### cmsys.StrcaseStartsWith / cmbbs.SubjectEx (after fix ff0e11f) -/
 
-`cmsys.StrcaseStartsWith` lower-cases with `bytes.ToLower`, which reads the Big5 title as UTF-8; the model mirrors
-that (see `lowerRune`). -/
+/-- the prefix test never faults and is `strncasecmp(str, prefix, len(prefix)) == 0` with ASCII-only folding:
+the folded prefix is a prefix of the folded string (bytes ≥ 0x80 are compared as they are). -/
+theorem strcaseStartsWith_spec (str pre : List Nat) :
+    strcaseStartsWith str pre = .ok (hasPrefix (str.map ccharTolower) (pre.map ccharTolower)) ∧
+    strcaseStartsWith str pre = .ok (cstrCaseHasPrefix str pre) :=
+  ⟨strcaseStartsWith_eq str pre, strcaseStartsWith_eq str pre⟩
 
-/-- totality: no slice or index faults (a matched prefix is never longer than what is left), the loop ends,
-and the returned title is a suffix of the title's C string — for every 65-byte array, with or without a NUL. -/
+/-- which bytes a matched prefix stands for: three ASCII bytes for `Re:` / `Fw:`, exactly the six bytes
+`[` C2 E0 BF FD `]` for the legacy forward tag. -/
+theorem subjectEx_prefix_shape (p : List Nat) (n ty : Nat) (h : subjectStep p = .ok (some (n, ty))) :
+    n ≤ p.length ∧ 3 ≤ n ∧
+    ((∃ x y z r, n = 3 ∧ p = x :: y :: z :: r ∧ x < 128 ∧ y < 128 ∧ z < 128) ∨
+     (∃ r, n = 6 ∧ p = 91 :: 0xC2 :: 0xE0 :: 0xBF :: 0xFD :: 93 :: r)) := by
+  rw [subjectStep_eq] at h
+  injection h with h
+  exact subjectStepP_spec p n ty h
+
+/-- totality: no slice or index faults, the loop ends, and the returned title is a suffix of the title's
+C string — for every 65-byte array, with or without a NUL. -/
 theorem subjectEx_total (title : List Nat) :
     ∃ ty pre r, subjectEx title = .ok (ty, r) ∧ cstr title = pre ++ r := by
   unfold subjectEx
@@ -517,41 +539,24 @@ theorem subjectEx_total (title : List Nat) :
   obtain ⟨ty, pre, r, h1, h2, _⟩ := subjectLoop_spec ((cstr title).length + 1) (cstr title) SUBJECT_NORMAL (by omega)
   exact ⟨ty, pre, r, h1, h2⟩
 
-/-- which bytes a matched prefix stands for: three ASCII bytes for `Re:` / `Fw:`; six or more bytes for the
-legacy forward tag — exactly `[`, four bytes ≥ 0x80, `]` unless the literal byte 0xEF occurs. -/
-theorem subjectEx_prefix_shape (p : List Nat) (n ty : Nat) (h : subjectStep p = some (n, ty)) :
-    n ≤ p.length ∧ 3 ≤ n ∧
-    ((∃ x y z r, n = 3 ∧ p = x :: y :: z :: r ∧ x < 128 ∧ y < 128 ∧ z < 128) ∨
-     (n = 6 ∧ (0xEF ∉ p → ∃ h1 h2 h3 h4 r, p = 91 :: h1 :: h2 :: h3 :: h4 :: 93 :: r ∧
-        128 ≤ h1 ∧ 128 ≤ h2 ∧ 128 ≤ h3 ∧ 128 ≤ h4))) := subjectStep_spec p n ty h
-
-/- FINDING (reported, see checks/c18.py): the full-strength statement
-     `subjectEx_no_split : subjectEx title = .ok (ty, r) → cstr title = pre ++ r → dbcsFold pre ≠ DBCS_LEADING`
-   ("the cut is never inside a double-byte character") is FALSE.  `bytes.ToLower` maps *every* byte that is not
-   valid UTF-8 to U+FFFD, and so does it map the valid three-byte sequence EF BF BD; the legacy tag `[轉錄]`
-   lower-cases to `[` U+FFFD×4 `]`, so `[` EF BF BD A4 A4 A4 `]` matches it although it is 8 bytes long, and the code
-   then cuts 6.  Negation with the witness (all bytes are valid Big5 lead/trail bytes): -/
-theorem subjectEx_split_witness :
-    subjectEx [91, 0xEF, 0xBF, 0xBD, 0xA4, 0xA4, 0xA4, 93, 120, 0] = .ok (SUBJECT_FORWARD, [0xA4, 93, 120]) ∧
-    dbcsFold [91, 0xEF, 0xBF, 0xBD, 0xA4, 0xA4] = DBCS_LEADING := by
-  refine ⟨by rfl, by decide +kernel⟩
-
-/-- what does hold (`…_partial`): when the byte 0xEF does not occur in the title, the cut is at a character
-boundary (and, with `subjectEx_total`, the result is the rest of the title from there). What is missing for the
-full statement is exactly the titles containing 0xEF (a Big5 lead byte of rarely used characters). -/
-theorem subjectEx_no_split_partial (title : List Nat) (hne : 0xEF ∉ cstr title) :
+/-- `SubjectEx` never splits a double-byte character, at full strength (every title): what is cut off in front
+ends at a character boundary of the title. -/
+theorem subjectEx_no_split (title : List Nat) :
     ∃ ty pre r, subjectEx title = .ok (ty, r) ∧ cstr title = pre ++ r ∧ dbcsFold pre ≠ DBCS_LEADING := by
   unfold subjectEx
   rw [cstrToBytes_eq']
   obtain ⟨ty, pre, r, h1, h2, h3⟩ := subjectLoop_spec ((cstr title).length + 1) (cstr title) SUBJECT_NORMAL (by omega)
-  exact ⟨ty, pre, r, h1, h2, h3 hne DBCS_ASCII (by have := dbcs_consts; omega)⟩
+  exact ⟨ty, pre, r, h1, h2, h3 DBCS_ASCII (by have := dbcs_consts; omega)⟩
 
-/-- observation O8 (not judged; the property's agreement clause does not list the subject parser): because of the
-same `bytes.ToLower`, any `[` + four non-UTF-8 bytes + `]` is taken for the legacy forward tag, e.g. `[閒聊] hello`
-(5B B6 A2 B2 E1 5D …) comes back as a forwarded article titled `hello`. -/
-theorem subjectEx_legacy_overmatch :
-    subjectEx [91, 0xB6, 0xA2, 0xB2, 0xE1, 93, 32, 104, 105, 0] = .ok (SUBJECT_FORWARD, [104, 105]) := by
-  rfl
+/-- the former witnesses of finding `split:subjectex` and observation O8 (both gone with ff0e11f): a bracketed tag
+of other bytes ≥ 0x80 is no longer taken for the legacy forward tag, the real tag still is. -/
+theorem subjectEx_former_witnesses :
+    subjectEx [91, 0xEF, 0xBF, 0xBD, 0xA4, 0xA4, 0xA4, 93, 120, 0] =
+      .ok (SUBJECT_NORMAL, [91, 0xEF, 0xBF, 0xBD, 0xA4, 0xA4, 0xA4, 93, 120]) ∧
+    subjectEx [91, 0xB6, 0xA2, 0xB2, 0xE1, 93, 32, 104, 105, 0] =
+      .ok (SUBJECT_NORMAL, [91, 0xB6, 0xA2, 0xB2, 0xE1, 93, 32, 104, 105]) ∧
+    subjectEx [91, 0xC2, 0xE0, 0xBF, 0xFD, 93, 32, 104, 105, 0] = .ok (SUBJECT_FORWARD, [104, 105]) := by
+  refine ⟨by rfl, by rfl, by rfl⟩
 
 example : subjectEx [82, 69, 58, 32, 102, 119, 58, 91, 0xC2, 0xE0, 0xBF, 0xFD, 93, 32, 32, 120, 0] = .ok (SUBJECT_FORWARD, [32, 120]) := by
   rfl
